@@ -16,6 +16,11 @@ CLAIMED = {
     text='The embedding of a k-qubit operator (ordered targets, control set) is specified by its textbook definition over Z[w]; TLC enumerates EVERY configuration (n<=3 quick, n<=4 thorough; all ordered target tuples of size 1..3, all control subsets, all matrix units) and checks a second index-relabelling formulation against the definition; each configuration is replayed through state.apply_gate / apply_control_n_gate / dm.apply_gate / dm.operator_expectation / the Circuit-level generic and controlled methods on all basis columns and on non-unit superpositions (linearity then covers every state and gate matrix). A TLA+ state machine of the Circuit class (one action per public method family incl. parametrized, multi-controlled, generic-matrix, user-registered gates, append_gate, extend_circuit, shift_qubit_index_) is simulated by TLC with exact Z[w] amplitudes (invariants: norm, unitarity, Unitary e0 = Run, definition = fast path); every behaviour is stepped through a real Circuit object comparing apply_state after every call, to_unitary, all Born marginals and a Pauli-string matrix element.',
     note='Trusted: TLC/SANY, tolerance 1e-9 on complex128, literal copies of the generic test matrices in harness/qsim.py. Rotation angles on the pi/2 (phases pi/4) grid; routing is value-independent.',
     technique='TLA+ spec of operator embedding and of the Circuit state machine over Z[w]; TLC exhaustive configuration enumeration + simulation; behaviours replayed step by step into the code'),
+ 'C04': dict(
+    cat='model_checking', ref='6/C04',
+    text='Circuit losses L = Re<phi|U(theta)|0> are differentiated exactly in the specification by the product rule in FORWARD mode over Z[w] (no reverse sweep in the spec; derivative matrices of rx/ry/rz/rzz/u3 and their controlled forms written out, controlled derivative = zero off the control subspace; the formulas are self-checked in TLC by the exact shift rule dL/dtheta = [L(theta+pi)-L(theta-pi)]/4). TLC simulates random parametrised circuits with plain, controlled, shared (same gate object re-appended) and placeholder parameter cells; each behaviour is built as a real Circuit/CircuitTorchWrapper model, backward() is run and every .grad entry and the flat gradient of hf_model_wrapper are compared with the exact values. The Knill-Laflamme inner product (forward and hand-written backward) is compared with the formal derivative of the sesquilinear form computed by TLC on Gaussian-integer code words.',
+    note='Angles on the pi/2 grid (phases pi/4). NOT covered: Pade logm backward, PSD sqrt backward, losses of the variational models, a trigonometric derivative error that vanishes on the grid. Tolerance 1e-9.',
+    technique='TLA+ forward-mode derivative spec over Z[w] + TLC simulation of parametrised circuits; behaviours replayed into torch autograd and compared'),
  'C07': dict(
     cat='model_checking', ref='6/C07',
     text='TLC derives the elementary gate tableaux from the dense gate matrices by conjugation over Z[i], generates the complete 1- and 2-qubit Clifford groups modulo phase by closure (24 and 11520 states = every (r,S) with S in Sp(2n,F2) and every phase vector) checking the phase-exact automorphism law and composition = sequential application in every state, and enumerates every interleaving of append/query/apply/export of the CliffordCircuit state machine up to a bounded length. Every group element is replayed through the real CliffordCircuit, apply_clifford_on_pauli, clifford_array_to_F2 and the state-vector simulator (U^dagger P U); every history is executed on a real object and the recorded trace is validated by TLC against the cache-free specification, so a query that does not reflect all appended gates is rejected.',
